@@ -1,6 +1,7 @@
 package main
 
 import (
+	"go/types"
 	"sort"
 	"strings"
 )
@@ -44,6 +45,8 @@ func runExtras(l *loaded, run *PropRun, prop, tier string) {
 				frameParamObligations(l, run, k, []string{p}, "options")
 			}
 		}
+	case "C05", "C15":
+		pointableObligations(l, run)
 	case "C04":
 		terminationWitness(run)
 	case "C14":
@@ -145,4 +148,43 @@ func terminationWitness(run *PropRun) {
 		run.Bounded = append(run.Bounded, "bounded (not a proof): "+bound+" — returned")
 	}
 	run.Extra = append(run.Extra, o)
+}
+
+// pointableObligations: jsonpointer dispatches to a kind's own JSONLookup only if the dynamic value it meets implements
+// JSONPointable, and the values it meets inside maps and slices are held by value (definitions, properties, allOf,
+// paths, responses, parameters ...). The lookup lemmas call the method directly, so they cannot see a receiver change;
+// this type-level obligation states the dependency's precondition: for every kind that has a JSONLookup method, the method
+// is in the method set of the value type.
+func pointableObligations(l *loaded, run *PropRun) {
+	scope := l.pkg.Types.Scope()
+	names := scope.Names()
+	sort.Strings(names)
+	n := 0
+	for _, name := range names {
+		tn, ok := scope.Lookup(name).(*types.TypeName)
+		if !ok || tn.IsAlias() {
+			continue
+		}
+		t := tn.Type()
+		pm := types.NewMethodSet(types.NewPointer(t)).Lookup(l.pkg.Types, "JSONLookup")
+		if pm == nil {
+			continue
+		}
+		n++
+		vm := types.NewMethodSet(t).Lookup(l.pkg.Types, "JSONLookup")
+		o := &Obligation{Name: "pointable/" + name, Kind: "frame", Props: []string{run.Prop}, Solver: "go/types", Expect: "unsat",
+			Src: "JSONLookup of " + name + " is in the method set of the value type: values held in maps and slices are met by jsonpointer as JSONPointable"}
+		if vm != nil {
+			o.Status = "proved"
+		} else {
+			o.Status = "failed"
+			o.Model = "JSONLookup has a pointer receiver: a " + name + " held by value (map or slice element, struct member) no longer implements jsonpointer.JSONPointable; pointers through it fall back to the reflective struct lookup, which knows neither extensions nor unknown keywords nor $ref"
+			o.replayNote = "type-level obligation (go/types method sets of the working tree)"
+		}
+		run.Extra = append(run.Extra, o)
+	}
+	if n == 0 {
+		run.Extra = append(run.Extra, &Obligation{Name: "pointable/none", Kind: "frame", Props: []string{run.Prop}, Solver: "go/types", Expect: "unsat", Status: "failed",
+			Src: "some kind has a JSONLookup method", Model: "no type of the package has a JSONLookup method any more: the obligation no longer binds"})
+	}
 }
